@@ -692,8 +692,9 @@ def inline_calls(F, fn, want=None, depth=2, max_blocks=1500):
             g["vars"].append([nm, _shift_place(pl, off_l)])
         nblocks = len(callee["blocks"])
         ret_block = off_b + nblocks
-        for cb in callee["blocks"]:
-            nb = {"cleanup": cb["cleanup"], "s": [], "inl": r}
+        subst = _generic_subst(callee, t)
+        for cbi, cb in enumerate(callee["blocks"]):
+            nb = {"cleanup": cb["cleanup"], "s": [], "inl": cb.get("inl", r), "inl_bb": cb.get("inl_bb", cbi)}
             for s in cb["s"]:
                 ns = dict(s)
                 ns["lhs"] = _shift_place(s["lhs"], off_l)
@@ -702,6 +703,8 @@ def inline_calls(F, fn, want=None, depth=2, max_blocks=1500):
                 nb["s"].append(ns)
             nt = _shift_term(cb["t"], off_l, off_b, ret_block)
             nt["inl"] = r
+            if subst and nt["k"] == "call":
+                _instantiate_call(F, nt, subst)
             nb["t"] = nt
             g["blocks"].append(nb)
         # landing block: dest = move callee._0 ; goto original target
@@ -721,6 +724,50 @@ def inline_calls(F, fn, want=None, depth=2, max_blocks=1500):
     g.pop("_last_inl", None)
     cache[ck] = g
     return g
+
+
+def _generic_subst(callee, t):
+    """generic parameter name -> the call site's argument for it (type parameters only)"""
+    names = callee.get("generics") or []
+    gargs = t.get("gargs") or []
+    if not names or len(names) != len(gargs):
+        return {}
+    return {n: a for n, a in zip(names, gargs) if not n.startswith("'") and n != a}
+
+
+_IMPL_INDEX = {}
+
+
+def _impl_index(F):
+    idx = _IMPL_INDEX.get(id(F))
+    if idx is None:
+        idx = {}
+        for f in F.fns.values():
+            if f.get("impl_trait") and f.get("name") and f.get("impl_self"):
+                idx[(f["impl_trait"], f["name"], f["impl_self"])] = f["path"]
+        _IMPL_INDEX[id(F)] = idx
+    return idx
+
+
+def _instantiate_call(F, t, subst):
+    """a trait-method call on a type parameter inside an inlined generic helper: resolve it to the workspace impl of the type
+    the helper was instantiated with (`T::parse(pair)` in `parse_all::<EnvField>` is `<EnvField as AstNode>::parse`)"""
+    import re as _re
+    if t.get("gargs"):
+        t["gargs"] = [subst.get(a, a) for a in t["gargs"]]
+    if not t.get("trait") or (t.get("resolved") and t["resolved"] in F.fns):
+        return
+    m = _re.match(r"^<(.+?) as ", t.get("callee_args") or "")
+    if not m:
+        return
+    selfty = subst.get(m.group(1))
+    if not selfty:
+        return
+    r = _impl_index(F).get((t["trait"], t.get("method"), selfty))
+    if r:
+        t["resolved"] = r
+        t["resolved_kind"] = "item"
+        t["instantiated_from"] = m.group(1)
 
 
 AWAIT_TRANSPARENT = ("std::pin::Pin::<Ptr>::new_unchecked", "std::future::IntoFuture::into_future",
@@ -751,8 +798,8 @@ def _inline_await(F, g, bi, t, r, want):
         g["vars"].append([nm, _shift_place(pl, off_l)])
     nblocks = len(callee["blocks"])
     ret_block = off_b + nblocks
-    for cb in callee["blocks"]:
-        nb = {"cleanup": cb["cleanup"], "s": [], "inl": r}
+    for cbi, cb in enumerate(callee["blocks"]):
+        nb = {"cleanup": cb["cleanup"], "s": [], "inl": cb.get("inl", r), "inl_bb": cb.get("inl_bb", cbi)}
         for s in cb["s"]:
             ns = dict(s)
             ns["lhs"] = _shift_place(s["lhs"], off_l)
